@@ -399,7 +399,7 @@ def make_replay(u: U, ob, model, dimvals):
             "dims": dimvals, "witness_scalars": scal, "calls": calls}
 
 
-QUICK_MS = int(os.environ.get("TVC_QUICK_MS", "4000"))
+QUICK_MS = int(os.environ.get("TVC_QUICK_MS", "8000"))
 PAR = int(os.environ.get("TVC_UNIT_PAR", "4"))
 
 
@@ -673,3 +673,27 @@ def zreal_(x):
     from .core import zreal
 
     return zreal(x)
+
+
+
+def on_reduction(u, label, fn):
+    """Run fn(red) when the executed code creates a reduction with this label (lets a contract attach lemma
+    instances to sums that are internal to the function body)."""
+    if not hasattr(u.ctx, "red_hooks"):
+        u.ctx.red_hooks = []
+    u.ctx.red_hooks.append((label, fn))
+
+
+def sum_point_update_rows(u, rA, B_t, p_fn, nrows):
+    """For every outer row r: instance of lemma sum.point between reduction rA (just created) and the sum tensor B_t,
+    where the summands differ at most at index p_fn(r)."""
+    rB = _red_of(B_t)
+    if rB is None or rA is None:
+        return
+    r = z3.Int(f"rpu_{next(u.ctx.fresh_ids)}")
+    k = z3.Int(f"kpu_{next(u.ctx.fresh_ids)}")
+    n = zint(rA.ns[0])
+    p = zint(p_fn(r))
+    agree = z3.ForAll([k], z3.Implies(z3.And(k >= 0, k < n, k != p), rA.body((r,), (k,)) == rB.body((r,), (k,))))
+    concl = z3.If(z3.And(p >= 0, p < n), rA.app((r,)) - rB.app((r,)) == rA.body((r,), (p,)) - rB.body((r,), (p,)), rA.app((r,)) == rB.app((r,)))
+    u.ctx.assume(z3.ForAll([r], z3.Implies(z3.And(r >= 0, r < zint(nrows), n == zint(rB.ns[0]), agree), concl), patterns=[rA.app((r,))]))
